@@ -167,6 +167,48 @@ func loopOrderEffects(mr MapRange) []orderEffect {
 			}
 		}
 	}
+	// last writer wins: inside the body a map entry is written under a key *derived* from
+	// the iteration (not the range key itself) with an iteration-dependent value: if two
+	// entries derive the same key, the surviving value depends on the map order
+	var rangeKey ssa.Value
+	for v := range iter {
+		if e, ok := v.(*ssa.Extract); ok && e.Index == 1 {
+			rangeKey = e
+		}
+	}
+	for b := range mr.Loop.Body {
+		for _, in := range b.Instrs {
+			mu, ok := in.(*ssa.MapUpdate)
+			if !ok {
+				continue
+			}
+			k := mu.Key
+			for {
+				switch x := k.(type) {
+				case *ssa.Convert:
+					k = x.X
+					continue
+				case *ssa.ChangeType:
+					k = x.X
+					continue
+				case *ssa.MakeInterface:
+					k = x.X
+					continue
+				}
+				break
+			}
+			if k == rangeKey || !dependsOn(k, iter, 6) {
+				continue
+			}
+			if _, isC := mu.Value.(*ssa.Const); isC {
+				continue // set-like: every colliding writer stores the same constant
+			}
+			if !dependsOn(mu.Value, iter, 6) {
+				continue
+			}
+			out = append(out, orderEffect{"derived-key-overwrite", in, "map entry written under a key derived from the iteration (collisions make the surviving value depend on map order)"})
+		}
+	}
 	// early exits: a return reachable from inside the loop body without passing the header
 	// again whose results depend on iteration values
 	for _, ret := range core.Returns(fn) {
